@@ -24,7 +24,9 @@ Fixpoint slookup {A} (l : list (string * A)) (k : string) : option A :=
 
 (* facts of the source tree that decide clauses of the property; regenerated on every run (gen/Gen_netref.v) *)
 Record facts := { f_getattr_repeats : bool;    (* __getattr__ (Python's fallback after AttributeError) asks the peer again *)
-                  f_ctxexit_delivers : bool }. (* the target's __exit__ learns the class of the exception raised in the with block *)
+                  f_ctxexit_delivers : bool;   (* the target's __exit__ learns the class of the exception raised in the with block *)
+                  f_reflects : bool }.         (* when the target's binary special method declines (NotImplemented) an operand that came by
+                                                  value, the owner tries the operand's reflected method against the target itself *)
 
 Definition deleted_attrs : list string := ["__array_struct__"; "__array_interface__"].
 Definition local_attrs : list string :=
@@ -101,6 +103,16 @@ Definition make_method (name : string) : made :=
 Definition class_factory_skips_local : bool := true.
 Definition synthesized (ms : list string) (d : string) : bool :=
   smem d ms && (if class_factory_skips_local then negb (smem d local_attrs) else true).
+
+(* the types whose proxy class is generated once, at import time, from the class object itself (so that the methods of its
+   metaclass `type` are synthesized too) and shared by class proxies and instance proxies alike -- as written in _builtin_types *)
+Definition builtin_cached_types : list string :=
+  ["type"; "object"; "bool"; "complex"; "dict"; "float"; "int"; "list"; "slice"; "str"; "tuple"; "set";
+   "frozenset"; "BaseException"; "Exception"; "type(None)"; "types.BuiltinFunctionType"; "types.GeneratorType";
+   "types.MethodType"; "types.CodeType"; "types.FrameType"; "types.TracebackType";
+   "types.ModuleType"; "types.FunctionType";
+   "type(int.__add__)"; "type(1 .__add__)"; "type(iter([]))"; "type(iter(()))"; "type(iter(set()))";
+   "bytes"; "bytearray"; "type(iter(range(10)))"; "memoryview"].
 
 (* ---- operations and what goes on the wire ---- *)
 
@@ -197,6 +209,32 @@ Definition fallback (F : facts) (o : op) : option (request nat) :=
   | _ => None
   end.
 
+(* ---- class queries: p.__class__, isinstance(p, C), isinstance(x, p) ---- *)
+(* p.__class__ (and through it isinstance(p, C), issubclass(p.__class__, C)): class_factory puts a class descriptor into the proxy's
+   class when it finds a class of the target's module-qualified name on the caller's side (netref._normalized_builtin_types,
+   then sys.modules); without one the class is read from the target like any attribute *)
+Inductive class_answer :=
+| CACallersClassOfThatName                 (* the descriptor: the class (for a class proxy: its metaclass) found by name on the caller's side *)
+| CAAsk (r : request nat).                 (* self.__getattr__("__class__") *)
+Definition class_query_route (resolved : bool) : class_answer :=
+  if resolved then CACallersClassOfThatName else CAAsk {| rq_handler := "HANDLE_GETATTR"; rq_args := [WStr "__class__"] |}.
+(* isinstance(other, p): BaseNetref.__instancecheck__ on the proxy p *)
+Inductive icroute :=
+| ICRaiseTypeError                         (* p is not the proxy of a class *)
+| ICFalse | ICTrue                         (* other is a proxy whose class id is p's: the class itself / an instance of exactly that class *)
+| ICSync (h : string)                      (* ask the owner: HANDLE_INSTANCECHECK (other is a proxy of another class),
+                                              HANDLE_CALLATTR "__instancecheck__" (other is the caller's, the class unknown to the caller) *)
+| ICLocalIsinstance                        (* isinstance(other, <the caller's class of that name>) *)
+| ICAttributeError.                        (* type(self).__dict__['__class__'] is None: 'NoneType' object has no attribute 'instance' *)
+Definition instancecheck_route (asks_owner resolved other_is_proxy self_is_class same_class_id other_is_class : bool) : icroute :=
+  if other_is_proxy then
+    (if negb self_is_class then ICRaiseTypeError
+     else if same_class_id then (if other_is_class then ICFalse else ICTrue)
+     else ICSync "HANDLE_INSTANCECHECK")
+  else if self_is_class then
+    (if negb resolved then (if asks_owner then ICSync "HANDLE_CALLATTR" else ICAttributeError) else ICLocalIsinstance)
+  else ICRaiseTypeError.
+
 (* ================================================================== 2. denotation (rpyc/core/protocol.py) *)
 
 (* the handler bodies, as far as the property is concerned *)
@@ -205,9 +243,11 @@ Inductive hbody :=
 | HTupleDir                                      (* return tuple(dir(obj)) *)
 | HAccess (overrider perm dflt : string) (nvals : nat)
       (* return self._access_attr(obj, name, (v1..vn), overrider, perm, dflt) *)
-| HCmpType (overrider perm dflt : string)        (* return self._access_attr(type(obj), op, (), ...)(obj, other) *)
+| HCmpType (overrider perm dflt : string) (reflects : bool)
+                                                 (* return [self._reflect(obj, op, (other,),] self._access_attr(type(obj), op, (), ...)(obj, other) [)] *)
 | HCallObj                                       (* return obj( *args, **dict(kwargs)) *)
-| HGetThenCall                                   (* obj = self._handle_getattr(obj, name); return self._handle_call(obj, args, kwargs) *)
+| HGetThenCall (reflects : bool)                 (* res = self._handle_call(self._handle_getattr(obj, name), args, kwargs)
+                                                    [then, without kwargs, self._reflect(obj, name, args, res)] *)
 | HCtxExit (delivers : bool)                     (* if exc: <raise it to get exc_info> ; return self._handle_getattr(obj, "__exit__")(exc, typ, tb) *)
 | HIslice.                                       (* return tuple(itertools.islice(obj, count)) *)
 
@@ -219,8 +259,8 @@ Definition handler_bodies (F : facts) : list (string * hbody) :=
    ("HANDLE_GETATTR", HAccess "_rpyc_getattr" "allow_getattr" "getattr" 0);
    ("HANDLE_DELATTR", HAccess "_rpyc_delattr" "allow_delattr" "delattr" 0);
    ("HANDLE_SETATTR", HAccess "_rpyc_setattr" "allow_setattr" "setattr" 1);
-   ("HANDLE_CMP", HCmpType "_rpyc_getattr" "allow_getattr" "getattr");
-   ("HANDLE_CALL", HCallObj); ("HANDLE_CALLATTR", HGetThenCall);
+   ("HANDLE_CMP", HCmpType "_rpyc_getattr" "allow_getattr" "getattr" (f_reflects F));
+   ("HANDLE_CALL", HCallObj); ("HANDLE_CALLATTR", HGetThenCall (f_reflects F));
    ("HANDLE_CTXEXIT", HCtxExit (f_ctxexit_delivers F)); ("HANDLE_BUFFITER", HIslice)].
 
 (* what the target's __exit__ is told *)
@@ -241,9 +281,10 @@ Inductive act (A : Type) :=
 | ABuiltin (f : string)                                          (* repr(obj) / str(obj) / hash(obj) *)
 | ADir                                                           (* the names dir(obj) lists *)
 | AExit (t : told A)                                             (* getattr(obj, "__exit__")(typ, val, tb) *)
-| AIslice (count : A).                                           (* tuple(itertools.islice(obj, count)) *)
+| AIslice (count : A)                                            (* tuple(itertools.islice(obj, count)) *)
+| AReflected (rd : string) (a : A).                              (* getattr(type(a), rd)(a, obj): the operand's reflected method, given the target *)
 Arguments AGetAttr {A}. Arguments ASetAttr {A}. Arguments ADelAttr {A}. Arguments ACallAttr {A}. Arguments ACall {A}.
-Arguments ATypeCall {A}. Arguments ABuiltin {A}. Arguments ADir {A}. Arguments AExit {A}. Arguments AIslice {A}.
+Arguments ATypeCall {A}. Arguments ABuiltin {A}. Arguments ADir {A}. Arguments AExit {A}. Arguments AIslice {A}. Arguments AReflected {A}.
 Definition kwmap {A B} (f : A -> B) (kw : list (string * A)) : list (string * B) := map (fun p => (fst p, f (snd p))) kw.
 Definition tmap {A B} (f : A -> B) (t : told A) : told B :=
   match t with TNothing a => TNothing (f a) | TClass a => TClass (f a) | TTypeError => TTypeError end.
@@ -253,7 +294,7 @@ Definition amap {A B} (f : A -> B) (a : act A) : act B :=
   | ACallAttr n args kw => ACallAttr n (map f args) (kwmap f kw)
   | ACall args kw => ACall (map f args) (kwmap f kw)
   | ATypeCall d o => ATypeCall d (f o) | ABuiltin g => ABuiltin g | ADir => ADir
-  | AExit t => AExit (tmap f t) | AIslice c => AIslice (f c)
+  | AExit t => AExit (tmap f t) | AIslice c => AIslice (f c) | AReflected rd a => AReflected rd (f a)
   end.
 
 Definition perm_of (p : string) : option permkey :=
@@ -267,44 +308,67 @@ Definition access_ok (overrider perm dflt : string) : option permkey :=
   | None => None
   end.
 
-(* the action of a handler body on the unpacked arguments, and the (permission, name) pairs _check_attr is asked about.
-   [truthy] is Python's bool() of an operand (only `if exc:` in _handle_ctxexit looks) *)
-Record served (A : Type) := { sv_act : act A; sv_checks : list (permkey * string) }.
-Arguments sv_act {A}. Arguments sv_checks {A}.
-Definition denote {A} (truthy : A -> bool) (hb : hbody) (args : list (warg A)) : result (served A) :=
+(* Python's binary-operator protocol (data model): when type(x).d(x, a) returns NotImplemented the interpreter calls
+   type(a).rd(a, x) with rd the reflected name; for comparisons the reflected name is the mirrored comparison *)
+Definition reflected_names : list (string * string) :=
+  [("__add__", "__radd__"); ("__sub__", "__rsub__"); ("__mul__", "__rmul__"); ("__matmul__", "__rmatmul__"); ("__truediv__", "__rtruediv__");
+   ("__floordiv__", "__rfloordiv__"); ("__mod__", "__rmod__"); ("__divmod__", "__rdivmod__"); ("__pow__", "__rpow__");
+   ("__lshift__", "__rlshift__"); ("__rshift__", "__rrshift__"); ("__and__", "__rand__"); ("__xor__", "__rxor__"); ("__or__", "__ror__");
+   ("__radd__", "__add__"); ("__rsub__", "__sub__"); ("__rmul__", "__mul__"); ("__rmatmul__", "__matmul__"); ("__rtruediv__", "__truediv__");
+   ("__rfloordiv__", "__floordiv__"); ("__rmod__", "__mod__"); ("__rdivmod__", "__divmod__"); ("__rpow__", "__pow__");
+   ("__rlshift__", "__lshift__"); ("__rrshift__", "__rshift__"); ("__rand__", "__and__"); ("__rxor__", "__xor__"); ("__ror__", "__or__");
+   ("__eq__", "__eq__"); ("__ne__", "__ne__"); ("__lt__", "__gt__"); ("__gt__", "__lt__"); ("__le__", "__ge__"); ("__ge__", "__le__")].
+Definition reflected_of (d : string) : option string := slookup reflected_names d.
+(* the table the owner uses (rpyc/core/protocol.py _REFLECTED on a tree that has it) *)
+Definition reflect_table (F : facts) : list (string * string) := if f_reflects F then reflected_names else [].
+
+(* the action of a handler body on the unpacked arguments, the (permission, name) pairs _check_attr is asked about, and what
+   the owner does when the action's result is NotImplemented (sv_reflect = Some (rd, a): apply type(a).rd(a, obj)).
+   [truthy] is Python's bool() of an operand (only `if exc:` in _handle_ctxexit looks); [byval]: did the operand come by value? *)
+Record served (A : Type) := { sv_act : act A; sv_checks : list (permkey * string); sv_reflect : option (string * A) }.
+Arguments sv_act {A}. Arguments sv_checks {A}. Arguments sv_reflect {A}.
+Definition reflect_for {A} (byval : A -> bool) (reflects : bool) (name : string) (args : list A) (nokw : bool) : option (string * A) :=
+  match args, reflected_of name with
+  | [x], Some rd => if reflects && nokw && byval x then Some (rd, x) else None
+  | _, _ => None
+  end.
+Definition denote {A} (truthy byval : A -> bool) (hb : hbody) (args : list (warg A)) : result (served A) :=
   match hb, args with
-  | HBuiltin f, [] => Ok {| sv_act := ABuiltin f; sv_checks := [] |}
-  | HTupleDir, [] => Ok {| sv_act := ADir; sv_checks := [] |}
+  | HBuiltin f, [] => Ok {| sv_act := ABuiltin f; sv_checks := []; sv_reflect := None |}
+  | HTupleDir, [] => Ok {| sv_act := ADir; sv_checks := []; sv_reflect := None |}
   | HAccess o p d 0, [WStr n] =>
       match access_ok o p d with
-      | Some PGet => Ok {| sv_act := AGetAttr n; sv_checks := [(PGet, n)] |}
-      | Some PDel => Ok {| sv_act := ADelAttr n; sv_checks := [(PDel, n)] |}
+      | Some PGet => Ok {| sv_act := AGetAttr n; sv_checks := [(PGet, n)]; sv_reflect := None |}
+      | Some PDel => Ok {| sv_act := ADelAttr n; sv_checks := [(PDel, n)]; sv_reflect := None |}
       | _ => Unmodelled
       end
   | HAccess o p d 1, [WStr n; WOp v] =>
       match access_ok o p d with
-      | Some PSet => Ok {| sv_act := ASetAttr n v; sv_checks := [(PSet, n)] |}
+      | Some PSet => Ok {| sv_act := ASetAttr n v; sv_checks := [(PSet, n)]; sv_reflect := None |}
       | _ => Unmodelled
       end
-  | HCmpType o p d, [WOp other; WStr nm] =>
+  | HCmpType o p d r, [WOp other; WStr nm] =>
       match access_ok o p d with
-      | Some PGet => Ok {| sv_act := ATypeCall nm other; sv_checks := [(PGet, nm)] |}
+      | Some PGet => Ok {| sv_act := ATypeCall nm other; sv_checks := [(PGet, nm)]; sv_reflect := reflect_for byval r nm [other] true |}
       | _ => Unmodelled
       end
-  | HCallObj, [WTuple a; WKw k] => Ok {| sv_act := ACall a k; sv_checks := [] |}
-  | HGetThenCall, [WStr n; WTuple a; WKw k] => Ok {| sv_act := ACallAttr n a k; sv_checks := [(PGet, n)] |}
+  | HCallObj, [WTuple a; WKw k] => Ok {| sv_act := ACall a k; sv_checks := []; sv_reflect := None |}
+  | HGetThenCall r, [WStr n; WTuple a; WKw k] =>
+      Ok {| sv_act := ACallAttr n a k; sv_checks := [(PGet, n)];
+            sv_reflect := reflect_for byval r n a (match k with [] => true | _ => false end) |}
   | HCtxExit delivers, [WOp e] =>
       Ok {| sv_act := AExit (if truthy e then (if delivers then TClass e else TTypeError) else TNothing e);
-            sv_checks := [(PGet, "__exit__")] |}
-  | HIslice, [WOp c] => Ok {| sv_act := AIslice c; sv_checks := [] |}
+            sv_checks := [(PGet, "__exit__")]; sv_reflect := None |}
+  | HIslice, [WOp c] => Ok {| sv_act := AIslice c; sv_checks := []; sv_reflect := None |}
   | _, _ => Raise TypeError                     (* wrong number/shape of arguments for the handler *)
   end.
-Definition serve_request {A} (F : facts) (truthy : A -> bool) (r : request A) : result (served A) :=
+Definition serve_request {A} (F : facts) (truthy byval : A -> bool) (r : request A) : result (served A) :=
   match slookup (handler_bodies F) (rq_handler r) with
-  | Some hb => denote truthy hb (rq_args r)
+  | Some hb => denote truthy byval hb (rq_args r)
   | None => Raise KeyError
   end.
 
+Definition no_kw_list (kw : list string) : bool := match kw with [] => true | _ => false end.
 (* ---- the specification: what Python applies to an object for an operation (data model; nothing derived from rpyc) ---- *)
 Definition cmp_names : list string := ["__eq__"; "__ne__"; "__lt__"; "__gt__"; "__le__"; "__ge__"].
 Definition direct {A} (truthy : A -> bool) (ops : nat -> A) (o : op) : act A :=
@@ -322,6 +386,13 @@ Definition direct {A} (truthy : A -> bool) (ops : nat -> A) (o : op) : act A :=
       else if String.eqb d "__exit__" then AExit (if truthy (ops 0%nat) then TClass (ops 0%nat) else TNothing (ops 0%nat))
       else ACallAttr d (map ops (positional nargs)) (kwmap ops (keyworded nargs kw))
   | OFetch => AIslice (ops 0%nat)
+  end.
+(* what a tree with f_reflects lets the owner do after the operation's own method declined: for a one-operand operator whose
+   operand came by value, the operand's reflected method against the target *)
+Definition serve_reflect {A} (F : facts) (byval : A -> bool) (ops : nat -> A) (o : op) : option (string * A) :=
+  match o with
+  | OSpecial d nargs kw => reflect_for byval (f_reflects F) d (map ops (positional nargs)) (no_kw_list kw)
+  | _ => None
   end.
 Definition act_checks {A} (a : act A) : list (permkey * string) :=
   match a with
@@ -438,10 +509,14 @@ Definition rqtraverse {A B} (f : A -> result B) (r : request A) : result (reques
 Section World.
   Variable imm : Type.                    (* immutable values: cross by value (C03/C04) *)
   Variable truthy_imm : imm -> bool.      (* bool(v) *)
+  Variable is_ni : imm -> bool.           (* v is NotImplemented *)
+  Variable imm_bool : bool -> imm.        (* True / False *)
   Variable heap : Type.                   (* the state of all objects on the target's side *)
   Definition oid := nat.
   Inductive val := VImm (v : imm) | VRef (o : oid) | VExc (e : exn).   (* a value / an object on the target's side / an exception class *)
   Definition truthy (v : val) : bool := match v with VImm x => truthy_imm x | _ => true end.
+  Definition byval (v : val) : bool := match v with VImm _ => true | _ => false end.
+  Definition res_ni (r : result val) : bool := match r with Ok (VImm v) => is_ni v | _ => false end.
   (* Python: result (a value, a reference, or the class of the exception raised) and effect of an action on object o *)
   Variable apply : act val -> heap -> oid -> result val * heap.
   Variable methods : oid -> list string.  (* the callables get_methods() finds on type(o) *)
@@ -475,6 +550,22 @@ Section World.
     forwarded (st_op s) && well_formed (st_op s) && permitted conf (direct_checks (st_op s))
     && exit_ok F (first_truthy (st_operands s)) (st_op s).
 
+  (* the rest of Python's binary-operator protocol, for a one-operand operator whose operand is a value: after the target's
+     own method declined, the operand's reflected method is given the other operand; when that declines too, == and != fall
+     back to identity (an object is not a value: False / True), everything else raises TypeError *)
+  Definition give_up (d : string) : result val :=
+    if String.eqb d "__eq__" then Ok (VImm (imm_bool false)) else if String.eqb d "__ne__" then Ok (VImm (imm_bool true))
+    else Raise TypeError.
+  Definition protocol_operand (p : op) (vs : list val) : option (string * string * val) :=
+    match p with
+    | OSpecial d nargs kw =>
+        match reflect_for byval true d (map (nth_val vs) (positional nargs)) (no_kw_list kw) with
+        | Some (rd, a) => Some (d, rd, a)
+        | None => None
+        end
+    | _ => None
+    end.
+
   (* ---- on the twin: directly ---- *)
   Record tworld := { tw_heap : heap; tw_slots : list oid }.
   Definition t_operand (slots : list oid) (a : operand) : option val :=
@@ -482,8 +573,18 @@ Section World.
   Definition t_step (w : tworld) (s : step) : option (result val * tworld) :=
     match nth_error (tw_slots w) (st_target s), all_some (map (t_operand (tw_slots w)) (st_operands s)) with
     | Some o, Some vs =>
-        let '(r, h') := if finds_slot o (st_op s) then apply (direct truthy (nth_val vs) (st_op s)) (tw_heap w) o
-                        else (Raise (no_method (st_op s)), tw_heap w) in
+        let '(r, h') :=
+          if finds_slot o (st_op s) then
+            let '(r1, h1) := apply (direct truthy (nth_val vs) (st_op s)) (tw_heap w) o in
+            match protocol_operand (st_op s) vs with
+            | Some (d, rd, a) =>
+                if res_ni r1 then                        (* the interpreter, holding the target itself, goes on *)
+                  let '(r2, h2) := apply (AReflected rd a) h1 o in
+                  (if res_ni r2 then give_up d else r2, h2)
+                else (r1, h1)
+            | None => (r1, h1)
+            end
+          else (Raise (no_method (st_op s)), tw_heap w) in
         Some (r, {| tw_heap := h'; tw_slots := push_ref (tw_slots w) r |})
     | _, _ => None
     end.
@@ -523,8 +624,14 @@ Section World.
   Definition owner_serves (h : heap) (ex : list oid) (o : oid) (r : request val) : result val * heap :=
     match unbox_s ex (BLocalRef o), rqtraverse (unbox_s ex) (rqmap box_c r) with
     | Ok _, Ok r' =>
-        match serve_request F truthy r' with
-        | Ok sv => if permitted conf (sv_checks sv) then apply (sv_act sv) h o else (Raise AttributeError, h)
+        match serve_request F truthy byval r' with
+        | Ok sv => if permitted conf (sv_checks sv) then
+                     let '(r1, h1) := apply (sv_act sv) h o in
+                     match sv_reflect sv with
+                     | Some (rd, a) => if res_ni r1 then apply (AReflected rd a) h1 o else (r1, h1)
+                     | None => (r1, h1)
+                     end
+                   else (Raise AttributeError, h)
         | Raise e => (Raise e, h) | OutOfFuel => (OutOfFuel, h) | Unmodelled => (Unmodelled, h)
         end
     | Raise e, _ | Ok _, Raise e => (Raise e, h)
@@ -540,7 +647,12 @@ Section World.
                              | Raise AttributeError, Some rq2 => owner_serves h1 (pw_exported w) o (rqmap (nth_val vs) rq2)
                              | _, _ => (r1, h1)
                              end in
-            let r := reply r2 in
+            (* the caller's interpreter: a NotImplemented reply makes it try the operand's reflected method -- against the
+               proxy, which no immutable value's method accepts -- and then give up *)
+            let r := match protocol_operand (st_op s) vs with
+                     | Some (d, _, _) => if res_ni (reply r2) then give_up d else reply r2
+                     | None => reply r2
+                     end in
             Some (r, {| pw_heap := h2; pw_exported := export (pw_exported w) r2; pw_slots := push_ref (pw_slots w) r |})
         | RNoMethod =>
             Some (Raise (no_method (st_op s)), w)
@@ -641,34 +753,38 @@ Definition act_sx (a : act nat) : sx :=
   | ACallAttr n a k => SL [SS "callattr"; str_sx n; SL (map snat a); kw_sx k]
   | ACall a k => SL [SS "call"; SL (map snat a); kw_sx k]
   | ATypeCall d o => SL [SS "typecall"; str_sx d; snat o] | ABuiltin f => SL [SS "builtin"; str_sx f] | ADir => SL [SS "dir"]
-  | AExit t => SL [SS "exit"; told_sx t] | AIslice c => SL [SS "islice"; snat c]
+  | AExit t => SL [SS "exit"; told_sx t] | AIslice c => SL [SS "islice"; snat c] | AReflected rd a => SL [SS "reflected"; str_sx rd; snat a]
   end.
 Definition conf_of (z : Z) : pconf := if (z =? 0)%Z then conf_classic else if (z =? 1)%Z then conf_public else conf_default.
-Definition served_sx (r : result (served nat)) : sx := sx_result (fun sv => SL [act_sx (sv_act sv); checks_sx (sv_checks sv)]) r.
+Definition served_sx (r : result (served nat)) : sx :=
+  sx_result (fun sv => SL [act_sx (sv_act sv); checks_sx (sv_checks sv);
+                           match sv_reflect sv with Some (rd, a) => SL [str_sx rd; snat a] | None => SL [] end]) r.
 
 Definition run_proxyops (x : sx) : sx :=
   match x with
   | SL [cmd; a1; a2; a3; a4] =>
       if is_tag "op" cmd then
-        (* [op; [configuration; getattr repeats; ctxexit delivers]; synthesized methods of the proxy's class; operation;
-            is operand 0 true?] *)
-        match sx_op a3, sx_l a1 with
-        | Some p, [cf; f1; f2] =>
+        (* [op; [configuration; getattr repeats; ctxexit delivers; reflects]; synthesized methods of the proxy's class; operation;
+            [is operand 0 true?; did operand 0 come by value?]] *)
+        match sx_op a3, sx_l a1, sx_l a4 with
+        | Some p, [cf; f1; f2; f3], [t0; b0] =>
             let c := conf_of (sx_z cf) in
-            let F := {| f_getattr_repeats := sx_bool f1; f_ctxexit_delivers := sx_bool f2 |} in
-            let truthy := fun _ : nat => sx_bool a4 in
+            let F := {| f_getattr_repeats := sx_bool f1; f_ctxexit_delivers := sx_bool f2; f_reflects := sx_bool f3 |} in
+            let truthy := fun _ : nat => sx_bool t0 in
+            let byv := fun _ : nat => sx_bool b0 in
             let r := route (map sx_str (sx_l a2)) p in
             SL [routed_sx r;
                 match fallback F p with Some rq => SL [request_sx rq] | None => SL [] end;
-                match r with RSend rq _ => served_sx (serve_request F truthy rq) | _ => SL [] end;
+                match r with RSend rq _ => served_sx (serve_request F truthy byv rq) | _ => SL [] end;
                 act_sx (direct truthy (fun i => i) p);
                 sbool (forwarded p); sbool (well_formed p);
                 sbool (permitted c (direct_checks p));
                 match r with
-                | RSend rq _ => match serve_request F truthy rq with Ok sv => sbool (permitted c (sv_checks sv)) | _ => SL [] end
+                | RSend rq _ => match serve_request F truthy byv rq with Ok sv => sbool (permitted c (sv_checks sv)) | _ => SL [] end
                 | _ => SL []
-                end]
-        | _, _ => bad_input
+                end;
+                match serve_reflect F byv (fun i => i) p with Some (rd, a) => SL [str_sx rd; snat a] | None => SL [] end]
+        | _, _, _ => bad_input
         end
       else if is_tag "buffiter" cmd then
         (* [buffiter; chunk; max_chunk; factor; number of items]: yielded items, items left, counts requested *)
